@@ -133,6 +133,20 @@ def position_problem(pos, lines):
     return None
 
 
+_KEYWORD = re.compile(r"\$[a-z_]+$")
+
+
+def user_keyword_at(loc, text):
+    """The `$keyword` the user wrote at exactly this (single-line) span of `text`, or None."""
+    if text is None:
+        return None
+    lines = text.splitlines()
+    if loc.start.line != loc.end.line or not (1 <= loc.start.line <= len(lines)):
+        return None
+    span = lines[loc.start.line - 1][loc.start.column - 1:loc.end.column - 1]
+    return span if _KEYWORD.match(span) else None
+
+
 def check_errors(errors, files, main, what):
     """Property statement applied to a list of error groups.  Returns list of
     (key, description)."""
@@ -152,8 +166,14 @@ def check_errors(errors, files, main, what):
                 continue
             head = m.message.split("\n")[0][:80]
             if loc.is_synthetic:
-                bad.append(("synthetic-location-shown:" + msg_kind(g[0])[:48],
-                            "%s: message %r has a synthetic location (rendered as [compiler bug])" % (what, head)))
+                # narrow key: when the hidden position is exactly a `$keyword` the user typed (the
+                # location of a desugared `$next`, `$size_in_bytes`, …) the key names that keyword;
+                # otherwise the position belongs to text the user never wrote (a skeleton of synthetics.py)
+                origin = user_keyword_at(loc, sources.get(m.source_file) if isinstance(m.source_file, str) else None)
+                bad.append(("synthetic-location-shown%s:%s" % ("@" + origin if origin else "", msg_kind(g[0])[:48]),
+                            "%s: message %r has a synthetic location %s (rendered as [compiler bug])%s" % (
+                                what, head, loc, " although it is the position of the `%s` the user wrote" % origin
+                                if origin else "")))
                 continue
             f = m.source_file
             if not isinstance(f, str):
@@ -176,7 +196,10 @@ def check_errors(errors, files, main, what):
             if p is None and not (loc.start <= loc.end):
                 p = "start after end"
             if p:
-                bad.append(("position-outside-file:" + msg_kind(g[0])[:48],
+                # `0:0` = the message has no location at all (location_or_default); a different class
+                # of defect than a position that lies outside its file
+                nowhere = loc.start == (0, 0) and loc.end == (0, 0)
+                bad.append((("no-position(0:0):" if nowhere else "position-outside-file:") + msg_kind(g[0])[:48],
                             "%s: message %r at %s in %r: %s" % (what, head, loc, f, p)))
     return bad
 
